@@ -2145,12 +2145,41 @@ def _count_reduce_site(interp):
     return None, 0
 
 
+def lazy_map_image(interp, lm):
+    """the items of map(f, xs) over a symbolic sequence as the element-wise image -- only when f, probed on an arbitrary
+    element, neither raises nor splits cases nor emits ghost events (else Unsupported)"""
+    from . import seqs
+    from .interp import PyRaise
+    xs = seqs.as_slist(interp, lm.xs)
+    st = interp.st
+    uid = st.fresh_name(xs.uid + '.map')
+
+    def elem(interp2, idx_term):
+        return interp2.call(lm.f, [slist_elem(interp2, xs, idx_term)], {})
+
+    k = st.fresh_int(uid + '.k')
+    n_dec, n_tr = len(st.decisions), len(st.trace)
+    with st.scope(z3.And(k >= 0, k < xs.length)):
+        if not st.infeasible_site():
+            n_dec = len(st.decisions)
+            try:
+                elem(interp, k)
+            except PyRaise:
+                raise Unsupported('items of map(f, xs): f may raise')
+    if len(st.decisions) != n_dec or len(st.trace) != n_tr:
+        raise Unsupported('items of map(f, xs): f splits cases or has ghost effects (%r, %r)'
+                          % (st.decisions[n_dec:], st.trace[n_tr:]))
+    return SList(xs.length, elem, uid)
+
+
 def m_items_of(interp, args, kwargs):
     """spec helper items_of(it): the remaining items of an iterator / the items of a sequence"""
     from . import seqs
     x = args[0]
     if isinstance(x, (SOpt, SChoice)):
         x = interp.resolve(x)
+    if isinstance(x, SLazyMap):
+        return lazy_map_image(interp, x)
     if isinstance(x, (SList, SIter, SEnumerate)):
         if isinstance(x, SIter):
             if isinstance(x.pos, int) and x.pos == 0:
